@@ -24,6 +24,7 @@ import NumbersModel.Drv.StyleStore
 import NumbersModel.Drv.Sizes
 import NumbersModel.Drv.TablePipeline
 import NumbersModel.Drv.DocTree
+import NumbersModel.Drv.FormatDispatch
 
 open NumbersModel.Drv
 
@@ -60,6 +61,7 @@ def dispatch (line : String) : String :=
     | "labels" :: rest => handleLabels rest
     | "table" :: rest => handleTable rest
     | "doctree" :: rest => handleDocTree rest
+    | "fmtd" :: rest => Fmtd.handleFmtd rest
     | _ => none
   match r with
   | some s => s
